@@ -56,6 +56,7 @@ def configs(tier, seed):
                 out.append(dict(harness="sharded_fault", grid=list(grid), m=t[0], s=t[1], p=t[2], idx_enc=enc[0], data_enc=enc[1],
                                 legacy=bool(n % 4 == 0), cost=8, wall=1500))
     out.append(dict(harness="dispatch", cost=1))
+    out.append(dict(harness="two_scales", cost=3))
     return out
 
 
@@ -254,6 +255,41 @@ def H_sharded_fault(ctx, cfg):
     _eq(ctx, got, payloads[cc], "faulty-server-never-yields-wrong-bytes")
 
 
+def H_two_scales(ctx, cfg):
+    """Two sharded scales whose chunks live in shards with the same numbers, read alternately through one HTTP
+    accessor and through a second accessor opened later in the same process."""
+    env, server, fa, sfa, ha, sha = _world()
+    info = S.make_info((2, 2, 1), 1, 1, 1, 0)
+    sc2 = copy.deepcopy(info["scales"][0])
+    sc2["key"] = "s1"
+    sc2["size"] = [2, 1, 1]
+    info["scales"].append(sc2)
+    fa.FileAccessor("/mfs/ds", gzip=False).store_file("info", json.dumps(info).encode(), mime_type="application/json")
+    acc = sfa.ShardedFileAccessor(S.BASE, strategy="in memory")
+    acc.info = copy.deepcopy(info)
+    stored = {}
+    n = 0
+    for key, grid in (("s0", (2, 2, 1)), ("s1", (2, 1, 1))):
+        for x in range(grid[0]):
+            for y in range(grid[1]):
+                cc = (x, x + 1, y, y + 1, 0, 1)
+                pl = S.payload(f"{key}_{n}", 1 + n % 2)
+                n += 1
+                stored[(key, cc)] = pl
+                acc.store_chunk(pl, key, cc)
+    acc.close()
+    env.run_atexit()
+    ctx.input("payloads", [list(p.bs) for p in stored.values()])
+    a1 = sha.ShardedHttpAccessor(URL)
+    order = sorted(stored, key=lambda k: (k[1], k[0]))          # alternate between the scales
+    for key, cc in order:
+        _eq(ctx, a1.fetch_chunk(key, cc), stored[(key, cc)], "alternating-scales-same-accessor")
+    a2 = sha.ShardedHttpAccessor(URL + "/")
+    for key, cc in reversed(order):
+        _eq(ctx, a2.fetch_chunk(key, cc), stored[(key, cc)], "second-accessor-in-the-same-process")
+    ctx.sample(dict(scales=2, chunks=len(stored), requests=server.requests))
+
+
 def H_dispatch(ctx, cfg):
     env, server, fa, sfa, ha, sha = _world()
     acc_mod = load.mod("accessor")
@@ -349,6 +385,45 @@ def replay(cfg, cex):
     acc_mod = load.mod("accessor")
     if h == "dispatch":
         return True, "dispatch table violated: " + str(inp["bad"][:2])
+    if h == "two_scales":
+        sfa = load.mod("sharded_file_accessor")
+        sha = load.mod("sharded_http_accessor")
+        info = S.make_info((2, 2, 1), 1, 1, 1, 0)
+        sc2 = copy.deepcopy(info["scales"][0])
+        sc2["key"] = "s1"
+        sc2["size"] = [2, 1, 1]
+        info["scales"].append(sc2)
+        with tempfile.TemporaryDirectory() as td:
+            ds = os.path.join(td, "ds")
+            acc = sfa.ShardedFileAccessor(ds, strategy="in memory")
+            acc.info = copy.deepcopy(info)
+            stored = {}
+            pls = [bytes(p) for p in inp["payloads"]]
+            n = 0
+            for key, grid in (("s0", (2, 2, 1)), ("s1", (2, 1, 1))):
+                for x in range(grid[0]):
+                    for y in range(grid[1]):
+                        cc = (x, x + 1, y, y + 1, 0, 1)
+                        stored[(key, cc)] = pls[n]
+                        acc.store_chunk(pls[n], key, cc)
+                        n += 1
+            acc.close()
+            with open(os.path.join(ds, "info"), "w") as f:
+                json.dump(info, f)
+            srv, H = _serve(td)
+            try:
+                url = f"http://127.0.0.1:{srv.server_address[1]}/ds"
+                for a in (sha.ShardedHttpAccessor(url), sha.ShardedHttpAccessor(url + "/")):
+                    for key, cc in sorted(stored, key=lambda k: (k[1], k[0])):
+                        try:
+                            got = a.fetch_chunk(key, cc)
+                        except Exception as e:
+                            return True, f"scale {key} chunk {cc}: {type(e).__name__}: {e}"
+                        if got != stored[(key, cc)]:
+                            return True, f"scale {key} chunk {cc}: HTTP returned {got!r}, stored {stored[(key, cc)]!r}"
+            finally:
+                srv.shutdown()
+        return False, "alternating reads of two scales agree with the stored bytes"
     if h in ("plain", "plain_fault"):
         fa = load.mod("file_accessor")
         ha = load.mod("http_accessor")
